@@ -366,7 +366,17 @@ def F17():
     c.run(start_time=S, end_time=S + D(3))
 
 
-ALL = ["F1", "F2", "F3", "F3b", "F4", "F5", "F6", "F7", "F8", "F9", "F10", "F11", "F13", "F14", "F15", "F16", "F17"]
+def F18():
+    """to_compressed refuses quantified (unmasked) data when the mask is passed separately (C18)"""
+    m = np.array([[True, False], [False, False]])
+    x = fm.UNITS.Quantity(np.arange(4.0).reshape(2, 2), "m")
+    c = fm.data.tools.to_compressed(x, order="F", mask=m)
+    assert np.array_equal(c.magnitude, [2.0, 1.0, 3.0]) and c.units == fm.UNITS.Unit("m"), c
+    back = fm.data.tools.from_compressed(c, (2, 2), order="F", mask=m)
+    assert np.array_equal(np.ma.getmaskarray(back.magnitude), m)
+
+
+ALL = ["F1", "F2", "F3", "F3b", "F4", "F5", "F6", "F7", "F8", "F9", "F10", "F11", "F13", "F14", "F15", "F16", "F17", "F18"]
 
 if __name__ == "__main__":
     names = sys.argv[1:] or ALL
